@@ -168,22 +168,20 @@ func originOfIndex(d *declInfo, m types.Object) indexOrigin {
 				continue
 			}
 			if ce, ok := as.Rhs[i].(*ast.CallExpr); ok {
-				if sel, ok := ce.Fun.(*ast.SelectorExpr); ok {
-					f, _ := typeutil.Callee(d.pkg.TypesInfo, ce).(*types.Func)
-					if f == nil {
-						continue
-					}
-					fname := objName(f)
-					switch fname[strings.LastIndex(fname, ".")+1:] {
-					case "indexNodes":
-						out = indexOrigin{kind: "nodes", operand: baseObj(d, sel.X)}
-					case "indexRootElements":
-						out = indexOrigin{kind: "roots", operand: baseObj(d, sel.X)}
-					case "indexEdges":
-						out = indexOrigin{kind: "edges", operand: baseObj(d, sel.X)}
-					case "indexConnectedNodes":
-						out = indexOrigin{kind: "connected", operand: baseObj(d, sel.X)}
-					}
+				f, _ := typeutil.Callee(d.pkg.TypesInfo, ce).(*types.Func)
+				if f == nil {
+					continue
+				}
+				// the list the index is built from: the receiver, or the first argument of a plain function
+				var operand types.Object
+				if sel, ok := ce.Fun.(*ast.SelectorExpr); ok && f.Type().(*types.Signature).Recv() != nil {
+					operand = baseObj(d, sel.X)
+				} else if len(ce.Args) > 0 {
+					operand = baseObj(d, ce.Args[0])
+				}
+				fname := objName(f)
+				if k, ok := indexerKinds[fname[strings.LastIndex(fname, ".")+1:]]; ok {
+					out = indexOrigin{kind: k, operand: operand}
 				}
 			}
 		}
@@ -191,6 +189,30 @@ func originOfIndex(d *declInfo, m types.Object) indexOrigin {
 	})
 	if out.kind != "" {
 		return out
+	}
+	// an index handed in as a parameter: recognised by the result type of the indexer that builds it
+	if v, ok := m.(*types.Var); ok && theProgram != nil {
+		isParam := false
+		if d.fd.Type.Params != nil {
+			for _, fl := range d.fd.Type.Params.List {
+				for _, n := range fl.Names {
+					if d.pkg.TypesInfo.Defs[n] == m {
+						isParam = true
+					}
+				}
+			}
+		}
+		if isParam {
+			for _, fn := range theProgram.Funcs {
+				if fn.Parent() != nil || fn.Signature.Results().Len() != 1 {
+					continue
+				}
+				name := fnName(fn)
+				if k, ok := indexerKinds[name[strings.LastIndex(name, ".")+1:]]; ok && types.Identical(fn.Signature.Results().At(0).Type(), v.Type()) {
+					return indexOrigin{kind: k}
+				}
+			}
+		}
 	}
 	// a set filled by hand: for _, x := range SRC { m[x] = ... }
 	ast.Inspect(d.fd.Body, func(n ast.Node) bool {
@@ -234,7 +256,21 @@ var getterRe = regexp.MustCompile(`\.Get([A-Z][A-Za-z0-9_]*)\(\)`)
 
 // normText rewrites generated getter calls to the field they read: x.GetId() ≡ x.Id.
 func normText(s string) string {
-	return strings.TrimSpace(getterRe.ReplaceAllString(s, ".$1"))
+	s = strings.TrimSpace(getterRe.ReplaceAllString(s, ".$1"))
+	if len(fieldAlias) > 0 {
+		s = fieldSelRe.ReplaceAllStringFunc(s, func(m string) string { return "." + canonField(m[1:]) })
+	}
+	return s
 }
 
+var fieldSelRe = regexp.MustCompile(`\.[a-z][A-Za-z0-9_]*`)
+
 func sameKey(a, b string) bool { return normText(a) == normText(b) }
+
+// indexerKinds: the (canonical) index-building helpers of pkg/sbom and what they index.
+var indexerKinds = map[string]string{
+	"indexNodes":          "nodes",
+	"indexRootElements":   "roots",
+	"indexEdges":          "edges",
+	"indexConnectedNodes": "connected",
+}
